@@ -50,6 +50,8 @@ type comparator struct {
 	prefix  map[string]string // local name -> key path the local stands for (bound parameters of a followed call)
 	prog    *Program
 	depth   int
+	jStrip  string // leading field of j-side operands that stands for the key itself (carried struct's key field)
+	ident   bool   // an operand may be the element itself (identity measure "")
 	params  [2]string
 	recv    string
 	keys    []string
@@ -68,7 +70,35 @@ func (p *Program) infoFor(fn *ssa.Function) *types.Info {
 
 // operand resolves `a.staticCount`, `s[i].paramCount`, `ci.route.Path`, `rcs.candidates[i].literalCount`.
 func (cm *comparator) operand(e ast.Expr) (cmpOperand, bool) {
+	op, ok := cm.operand0(e)
+	if op.side == "j" && cm.jStrip != "" {
+		if op.key == cm.jStrip {
+			op.key = ""
+		} else if strings.HasPrefix(op.key, cm.jStrip+".") {
+			op.key = op.key[len(cm.jStrip)+1:]
+		} else if strings.HasPrefix(op.key, cm.jStrip+"#") {
+			op.key = op.key[len(cm.jStrip):]
+		}
+	}
+	if cm.ident && op.side != "" {
+		ok = true
+	}
+	return op, ok
+}
+
+func (cm *comparator) operand0(e ast.Expr) (cmpOperand, bool) {
 	var path []string
+	// len(x): the length measure of x
+	if call, ok := unparen(e).(*ast.CallExpr); ok && len(call.Args) == 1 {
+		if id, ok := unparen(call.Fun).(*ast.Ident); ok && id.Name == "len" {
+			op, _ := cm.operand0(call.Args[0])
+			if op.side == "" {
+				return cmpOperand{}, false
+			}
+			op.key += "#len"
+			return op, true
+		}
+	}
 	for {
 		e = unparen(e)
 		switch x := e.(type) {
@@ -311,7 +341,7 @@ func (cm *comparator) evalCall(call *ast.CallExpr, rel map[string]int) (bool, bo
 	if decl == nil || decl.Body == nil {
 		return false, false
 	}
-	sub := &comparator{fn: cm.fn, decl: decl, info: cm.info, locals: map[string]string{}, prefix: map[string]string{}, strict: cm.strict, keys: cm.keys, prog: cm.prog, depth: cm.depth + 1}
+	sub := &comparator{fn: cm.fn, decl: decl, info: cm.info, locals: map[string]string{}, prefix: map[string]string{}, strict: cm.strict, keys: cm.keys, prog: cm.prog, depth: cm.depth + 1, jStrip: cm.jStrip, ident: cm.ident}
 	sub.params = [2]string{"\x00", "\x00"}
 	bind := func(name string, e ast.Expr) bool {
 		if name == "" || name == "_" {
@@ -1166,4 +1196,124 @@ func ruleC03e(c *Ctx) {
 		}
 	}
 	c.count("counter_pairs", n)
+}
+
+// semanticArgmaxGuard: guard(k, best) - possibly through a module helper - is a strict total order on distinct keys:
+// over all sign vectors of its measures (the key itself, len of the key, ...) it agrees with a lexicographic
+// comparison whose last key is the key itself, compared strictly. Then "keep the element the guard prefers" selects
+// the same element in every iteration order.
+func semanticArgmaxGuard(p *Program, info *types.Info, guard ast.Expr, keyName, bestName, bestField string) bool {
+	cm := &comparator{info: info, locals: map[string]string{keyName: "i", bestName: "j"}, prefix: map[string]string{}, strict: map[string]bool{}, prog: p, jStrip: bestField, ident: true}
+	cm.params = [2]string{"\x00", "\x00"}
+	eval := func(rel map[string]int) (bool, bool) {
+		cm.problem = ""
+		return cm.evalCond(guard, rel)
+	}
+	if _, ok := eval(map[string]int{}); !ok {
+		return false
+	}
+	for iter := 0; iter < 6; iter++ {
+		before := len(cm.keys)
+		var enum func(k int, rel map[string]int)
+		enum = func(k int, rel map[string]int) {
+			if k == len(cm.keys) {
+				eval(rel)
+				return
+			}
+			for _, v := range []int{-1, 0, 1} {
+				rel[cm.keys[k]] = v
+				enum(k+1, rel)
+			}
+		}
+		enum(0, map[string]int{})
+		if len(cm.keys) == before {
+			break
+		}
+	}
+	if len(cm.keys) == 0 || len(cm.keys) > 4 {
+		return false
+	}
+	// the key itself must be among the measures
+	hasIdent := false
+	for _, k := range cm.keys {
+		if k == "" {
+			hasIdent = true
+		}
+	}
+	if !hasIdent {
+		return false
+	}
+	// a lexicographic order: try every permutation of the keys that ends in the key itself
+	n := len(cm.keys)
+	total := 1
+	for i := 0; i < n; i++ {
+		total *= 3
+	}
+	var perms [][]string
+	var permute func(cur []string, rest []string)
+	permute = func(cur []string, rest []string) {
+		if len(rest) == 0 {
+			if cur[len(cur)-1] == "" {
+				perms = append(perms, append([]string{}, cur...))
+			}
+			return
+		}
+		for i := range rest {
+			nr := append(append([]string{}, rest[:i]...), rest[i+1:]...)
+			permute(append(cur, rest[i]), nr)
+		}
+	}
+	permute(nil, cm.keys)
+	for _, order := range perms {
+		dir := map[string]int{}
+		okDir := true
+		for _, k := range order {
+			lt, ok1 := eval(map[string]int{k: -1})
+			gt, ok2 := eval(map[string]int{k: 1})
+			switch {
+			case !ok1 || !ok2:
+				okDir = false
+			case lt && !gt:
+				dir[k] = 1
+			case gt && !lt:
+				dir[k] = -1
+			default:
+				okDir = false
+			}
+		}
+		if !okDir {
+			continue
+		}
+		match := true
+		for code := 0; code < total && match; code++ {
+			rel := map[string]int{}
+			x := code
+			for _, k := range cm.keys {
+				rel[k] = x%3 - 1
+				x /= 3
+			}
+			if rel[""] == 0 {
+				continue // distinct keys
+			}
+			got, ok := eval(rel)
+			if !ok {
+				match = false
+				break
+			}
+			want := false
+			for _, k := range order {
+				if rel[k] != 0 {
+					want = (rel[k] < 0 && dir[k] > 0) || (rel[k] > 0 && dir[k] < 0)
+					break
+				}
+			}
+			if got != want {
+				match = false
+			}
+		}
+		if match {
+			return true
+		}
+	}
+	return false
 }
